@@ -75,18 +75,19 @@ type world struct {
 	running   bool
 	restarts  int
 
-	issuedAddrs        []issued
-	byAddr             map[string]int
-	foreignN           uint64
-	acctKeys           map[string]*hdkeychain.ExtendedKey // scope/account/branch -> branch xpub-capable key
-	violated           bool
-	pendingFail        map[string]int
-	built              []*wire.MsgTx
-	pendingResend      []string
-	unminedAtStart     map[chainhash.Hash]bool
-	resendSyncedHeight int32
-	derivedIdx         map[string]map[string]uint32
-	derivedN           map[string]uint32
+	issuedAddrs         []issued
+	byAddr              map[string]int
+	foreignN            uint64
+	acctKeys            map[string]*hdkeychain.ExtendedKey // scope/account/branch -> branch xpub-capable key
+	violated            bool
+	pendingFail         map[string]int
+	built               []*wire.MsgTx
+	pendingResend       []string
+	unminedAtStart      map[chainhash.Hash]bool
+	unminedChildAtStart map[chainhash.Hash]bool // unmined txs that had an unmined child when the wallet stopped
+	resendSyncedHeight  int32
+	derivedIdx          map[string]map[string]uint32
+	derivedN            map[string]uint32
 	// transactions the harness knows pay the wallet or were authored by it
 	funding []*wire.MsgTx
 	sent    []*wire.MsgTx
